@@ -39,7 +39,7 @@ func D(path string) Entry          { return Entry{Path: path, Kind: "d"} }
 func FM(path, content string, mode uint32) Entry {
 	return Entry{Path: path, Kind: "f", Content: content, Mode: mode}
 }
-func L(path, dest string) Entry    { return Entry{Path: path, Kind: "l", Dest: dest} }
+func L(path, dest string) Entry { return Entry{Path: path, Kind: "l", Dest: dest} }
 
 var (
 	blockMu    sync.Mutex
